@@ -266,6 +266,14 @@ class ResourceTransformer:
                     if isinstance(data, dict):
                         data = [data]
 
+                    if not isinstance(data, list) or not all(
+                        isinstance(obj, dict) for obj in data
+                    ):
+                        raise CodegenError(
+                            "A json sample must be an object or an array of objects",
+                            uri=uri,
+                        )
+
                     for obj in data:
                         classes.extend(DictMapper.map(obj, name, dirname))
                 except ValueError as exc:
